@@ -105,7 +105,7 @@ def gen_c16(rng, tier):
     boot = rng.choice([0, 5, 64, 100000]) * (GRID_US if dyadic else 1)
     if far:
         boot = rng.choice([50, 126]) * 86400 * 10**6 + (0 if dyadic else rng.choice([0, 7, 999_983]))
-    return {"dyadic": dyadic, "boot_us": boot}, ops
+    return {"dyadic": dyadic, "boot_us": boot, "time_source": rng.choice(["frozen", "ahead"]) if rng.random() < 0.1 else None}, ops
 
 
 def gen_c19(rng, tier):
@@ -120,6 +120,7 @@ def gen_c19(rng, tier):
         period = rng.choice([1 / 3, 1 / 60, 2 / 3, 0.1 + 3e-7, 1 / 7])      # not a whole number of microseconds
         period_us = int(period * 1e6)
     cfg = {"kind": kind, "dyadic": dyadic, "period": period, "period_us": period_us,
+           "time_source": rng.choice(["frozen", "ahead"]) if rng.random() < 0.1 else None,
            "boot_us": rng.choice([0, 0, 1, 64, 64000]) * g if dyadic else rng.choice([0, 0, 17, 999_999, 10**7])}
     ops = []
 
@@ -137,11 +138,15 @@ def gen_c19(rng, tier):
     if kind in ("toggle", "toggle_db", "debouncer"):
         level = False
         reentrant = rng.random() < 0.15
+        cfg["latching_joystick"] = rng.random() < 0.3      # the joystick also offers getRawButtonPressed() like wpilib.Joystick
+        p_tap = rng.choice([0.0, 0.0, 0.1, 0.3]) if kind != "debouncer" else 0.0
         p_flip = rng.choice([0.1, 0.3, 0.5, 0.8])
         for _ in range(n):
             ops.append(["adv", int(adv())])
             if rng.random() < p_flip:
                 level = not level
+            if p_tap and not level and rng.random() < p_tap:
+                ops.append(["tap"])      # pressed and released again between two samples: no sample sees it
             if kind == "debouncer":
                 if rng.random() < 0.05:
                     np_, _ = _nice_seconds(rng, dyadic, 1000, 2_000_000)
@@ -154,9 +159,12 @@ def gen_c19(rng, tier):
                     ops[-1].append(rng.choice(["on", "get", "off"]))
     elif kind == "pfilter":
         cfg["bypass"] = rng.choice([logging.WARNING, logging.WARNING, logging.INFO, logging.ERROR, logging.DEBUG, logging.NOTSET])
+        several_loggers = rng.random() < 0.3
         for _ in range(n):
             ops.append(["adv", int(adv())])
             ops.append(["record", rng.choice([logging.DEBUG, logging.INFO, logging.INFO, logging.WARNING, logging.ERROR, logging.CRITICAL, 25])])
+            if several_loggers:
+                ops[-1].append(rng.choice(["x", "drive", "drive.left"]))      # one filter sees the records of several loggers
     else:
         cfg["bypass"] = None
         for _ in range(n):
@@ -196,6 +204,14 @@ def execute(plan, trace=False):
     clk = world.SimClock()
     R = _Run(plan, world, trace)
     status, violation = "ok", None
+    ts = plan["config"].get("time_source")
+    RC = world.wpilib.RobotController
+    if ts:
+        # the program installed its own time source for RobotController.getTime() (log replay, a corrected time base):
+        # notifiers, the watchdog and the debouncers are specified on the FPGA clock
+        frozen = world.now_us()
+        RC.setTimeSource((lambda: frozen) if ts == "frozen" else (lambda: world.now_us() + 3_000_000))
+        R.fault("custom_time_source_" + ts)
     try:
         if plan["property"] == "C16":
             _exec_c16(plan, world, R)
@@ -205,6 +221,9 @@ def execute(plan, trace=False):
         status = "inconclusive"
     except Violation as v:
         status, violation = "violation", v.to_json()
+    finally:
+        if ts:
+            RC.setTimeSource(RC.getFPGATime)
     res = {"status": status, "violation": violation, "probes": R.probes, "faults": R.faults, "shape": util.h48(R.shape),
            "digest": util.digest(R.log), "sim_us": clk.covered(), "nontrivial": bool(R.nontrivial and status == "ok"),
            "states": sorted(R.states), "trans": sorted(R.trans)}
@@ -473,6 +492,21 @@ class _Joy:
         return self.level
 
 
+class _LatchJoy(_Joy):
+    """like wpilib.Joystick: besides the level there is a press-event latch (set by every press, cleared by reading it)"""
+
+    def __init__(self):
+        super().__init__()
+        self.latched = False
+
+    def getRawButtonPressed(self, n):
+        r, self.latched = self.latched, False
+        return r
+
+    def getRawButtonReleased(self, n):
+        return False
+
+
 class _ClockShim:
     def __init__(self, world):
         self.world = world
@@ -511,7 +545,7 @@ def _now_s(world):
 
 def _toggle(plan, world, R, cfg, exact):
     from robotpy_ext.control.toggle import Toggle
-    joy = _Joy()
+    joy = _LatchJoy() if cfg.get("latching_joystick") else _Joy()
     period = cfg["period"] if cfg["kind"] == "toggle_db" else None
     tg = Toggle(joy, 3, period) if period is not None else Toggle(joy, 3)
     state = False            # model: the toggle's state
@@ -522,8 +556,16 @@ def _toggle(plan, world, R, cfg, exact):
         if op[0] == "adv":
             world.advance(op[1])
             continue
+        if op[0] == "tap":
+            # a press and release that no sample sees (the button is up at the samples before and after)
+            if hasattr(joy, "latched"):
+                joy.latched = True
+            R.fault("tap_between_samples")
+            continue
         if op[0] != "sample":
             continue
+        if bool(op[1]) and not joy.level and hasattr(joy, "latched"):
+            joy.latched = True
         joy.level = bool(op[1])
         now = _now_s(world)
         # the signal this sample sees: the raw level, or with a debounce period a press held steady for that period
@@ -656,7 +698,9 @@ def _pfilter(plan, world, R, cfg, exact):
             if op[0] != "record":
                 continue
             now = shim.monotonic()
-            rec = logging.LogRecord("x", op[1], __file__, 1, "msg", None, None)
+            rec = logging.LogRecord(op[2] if len(op) > 2 else "x", op[1], __file__, 1, "msg", None, None)
+            if len(op) > 2 and op[2] != "x":
+                R.fault("records_from_several_loggers")
             try:
                 got = flt.filter(rec)
             except Exception as e:
